@@ -47,9 +47,11 @@ Lemma generated_exec_policy : forall fe e,
   Some (match e with NoSuchSlaveExc => XIgnoreOrExc 11 | _ => XExc 4 end).
 Proof. intros fe e; destruct fe; destruct e; reflexivity. Qed.
 
-(* Twisted TCP: no handler at all *)
-Lemma twisted_tcp_ladder_empty : forall b r, step_action (fc_loop code TwTcp) b (Some r) = Escape.
-Proof. intros b r; destruct b; reflexivity. Qed.
+(* the Twisted protocols (stream and, since /repo b36db33, the live datagram one): no handler at all *)
+Definition tw_fe (fe : frontend) : Prop := fe = TwTcp \/ fe = TwUdp.
+
+Lemma twisted_ladder_empty : forall fe b r, tw_fe fe -> step_action (fc_loop code fe) b (Some r) = Escape.
+Proof. intros fe b r [H|H]; subst; destruct b; reflexivity. Qed.
 
 Section Generated.
   Variables FS Req Resp World : Type.
@@ -65,44 +67,49 @@ Section Generated.
     snd (serve_event fe c sv k i) <> Escape.
   Proof. intros. apply serve_event_no_escape. apply generated_no_escape. assumption. Qed.
 
-  (* what the framer raises on a chunk escapes dataReceived; nothing is reset, so the same bytes
-     are still in the buffer when the next chunk arrives *)
-  Lemma twisted_tcp_escapes : forall c w cs bs ff e,
+  (* what the framer raises on a chunk/datagram escapes dataReceived/datagramReceived; nothing is
+     reset, so the same bytes are still in the buffer when the next one arrives *)
+  Lemma twisted_escapes : forall fe c w cs bs ff e, tw_fe fe ->
     e_listen_only _ _ _ _ E w = false ->
-    e_recv _ _ _ _ E (fargs_for (fc_loop code TwTcp) c w (is_empty bs)) (cs_f _ cs) bs = ([], ff, Some e) ->
-    serve_step TwTcp c w cs (IData bs) =
+    e_recv _ _ _ _ E (fargs_for (fc_loop code fe) c w (is_empty bs)) (cs_f _ cs) bs = ([], ff, Some e) ->
+    serve_step fe c w cs (IData bs) =
       (w, {| cs_f := ff; cs_running := cs_running _ cs && true; cs_closed := cs_closed _ cs |}, [], Escape).
   Proof.
-    intros c w cs bs ff e Hl Hr. unfold Frontends.serve_step.
-    change (pre_raise (fc_loop code TwTcp)) with (@None pyexn).
-    change (ls_listen_gate (fc_loop code TwTcp)) with true. rewrite Hl. cbn [andb].
-    change (empty_skips (fc_loop code TwTcp)) with false. rewrite Bool.andb_false_r.
-    unfold Frontends.serve_data.
-    change (ls_units (fc_loop code TwTcp)) with UnitsRaw. cbv iota. rewrite Hr. cbn [Frontends.deliver option_map].
-    rewrite twisted_tcp_ladder_empty. reflexivity.
+    intros fe c w cs bs ff e Hfe Hl Hr. unfold Frontends.serve_step.
+    assert (Hp : pre_raise (fc_loop code fe) = None) by (destruct Hfe; subst; reflexivity).
+    assert (Hg : ls_listen_gate (fc_loop code fe) = true) by (destruct Hfe; subst; reflexivity).
+    assert (Hs : empty_skips (fc_loop code fe) = false) by (destruct Hfe; subst; reflexivity).
+    assert (Hu : ls_units (fc_loop code fe) = UnitsRaw) by (destruct Hfe; subst; reflexivity).
+    assert (Hlo : ls_loops (fc_loop code fe) = false) by (destruct Hfe; subst; reflexivity).
+    rewrite Hp, Hg, Hl, Hs. cbn [andb]. rewrite Bool.andb_false_r.
+    unfold Frontends.serve_data. rewrite Hu, Hr. cbn [Frontends.deliver option_map].
+    rewrite (twisted_ladder_empty fe _ _ Hfe). unfold Frontends.apply_action. rewrite Hlo. reflexivity.
   Qed.
 
-  (* where nothing is raised Twisted TCP is as good as the others *)
-  Lemma twisted_tcp_partial : forall c w cs bs,
-    (let '(ds, ff, exn) := e_recv _ _ _ _ E (fargs_for (fc_loop code TwTcp) c w (is_empty bs)) (cs_f _ cs) bs in
-     snd (deliver (fc_exec code TwTcp) c w ds ff exn []) = None) ->
-    snd (serve_step TwTcp c w cs (IData bs)) <> Escape.
+  (* where nothing is raised the Twisted front-ends are as good as the others *)
+  Lemma twisted_partial : forall fe c w cs bs, tw_fe fe ->
+    (let '(ds, ff, exn) := e_recv _ _ _ _ E (fargs_for (fc_loop code fe) c w (is_empty bs)) (cs_f _ cs) bs in
+     snd (deliver (fc_exec code fe) c w ds ff exn []) = None) ->
+    snd (serve_step fe c w cs (IData bs)) <> Escape.
   Proof.
-    intros c w cs bs H. unfold Frontends.serve_step.
-    change (pre_raise (fc_loop code TwTcp)) with (@None pyexn).
-    destruct (ls_listen_gate (fc_loop code TwTcp) && e_listen_only _ _ _ _ E w); [cbn; discriminate|].
-    change (empty_skips (fc_loop code TwTcp)) with false. rewrite Bool.andb_false_r.
-    unfold Frontends.serve_data.
-    change (ls_units (fc_loop code TwTcp)) with UnitsRaw. cbv iota.
+    intros fe c w cs bs Hfe H. unfold Frontends.serve_step.
+    assert (Hp : pre_raise (fc_loop code fe) = None) by (destruct Hfe; subst; reflexivity).
+    assert (Hs : empty_skips (fc_loop code fe) = false) by (destruct Hfe; subst; reflexivity).
+    assert (Hu : ls_units (fc_loop code fe) = UnitsRaw) by (destruct Hfe; subst; reflexivity).
+    rewrite Hp, Hs.
+    destruct (ls_listen_gate (fc_loop code fe) && e_listen_only _ _ _ _ E w); [cbn; discriminate|].
+    rewrite Bool.andb_false_r.
+    unfold Frontends.serve_data. rewrite Hu.
     destruct (e_recv _ _ _ _ E _ (cs_f _ cs) bs) as [[ds ff] exn].
-    destruct (deliver (fc_exec code TwTcp) c w ds ff exn []) as [[[w' f'] outs] exn'].
+    destruct (deliver (fc_exec code fe) c w ds ff exn []) as [[[w' f'] outs] exn'].
     cbn in H. subst exn'. cbn [snd option_map]. apply step_action_none.
   Qed.
 
-  (* Twisted UDP: every datagram raises TypeError before the framer is reached *)
-  Lemma twisted_udp_dead : forall c w cs i,
-    let r := serve_step TwUdp c w cs i in
-    fst (fst (fst r)) = w /\ cs_f _ (snd (fst (fst r))) = cs_f _ cs /\ snd (fst r) = [] /\ snd r = Escape.
-  Proof. intros. cbn. repeat split; reflexivity. Qed.
+  (* the Twisted datagram server is alive: it hands (units, single) to the framer like the stream
+     protocol does, and nothing is raised before the framer is reached *)
+  Lemma twisted_udp_alive :
+    pre_raise (fc_loop code TwUdp) = None /\ ls_units (fc_loop code TwUdp) = UnitsRaw /\
+    ls_single (fc_loop code TwUdp) = true.
+  Proof. repeat split; reflexivity. Qed.
 End Generated.
 
